@@ -9,7 +9,7 @@ open Model
 open Driver_common
 
 let b = bytes_of_hex
-let zi s = z_of_int (int_of_string s)
+let zi s = z_of_dec s
 
 let parse_basic (t : string list) : ioq =
   match t with
